@@ -4,6 +4,7 @@ package saml
 
 import (
 	"encoding/base64"
+	"net/url"
 	"time"
 )
 
@@ -36,6 +37,19 @@ func logoutScenario(redirect bool) *logoutRun {
 	}
 	if r.lr.Issuer != nil {
 		r.lr.Issuer.NameQualifier, r.lr.Issuer.SPNameQualifier, r.lr.Issuer.Format, r.lr.Issuer.SPProvidedID = "", "", "", ""
+	}
+	// second configuration: a concrete logout URL with a query, and Destinations that differ from it only in the
+	// query or by an added fragment (the comparison is on the whole URL text)
+	if verifChoose("slo.concrete", 2) == 1 {
+		u, perr := url.Parse("https://sp.example.com/saml/slo?tenant=alpha")
+		verifAssume(perr == nil)
+		r.sp.SloURL = *u
+		r.lr.Destination = []string{
+			"https://sp.example.com/saml/slo?tenant=alpha",
+			"https://sp.example.com/saml/slo?tenant=beta",
+			"https://sp.example.com/saml/slo",
+			"https://sp.example.com/saml/slo?tenant=alpha#frag",
+		}[verifChoose("lr.Destination.class", 4)]
 	}
 	age := verifNondetDuration("lr.age")
 	verifAssume(age > -(1 << 62))
